@@ -53,13 +53,15 @@ def gen_text(rng, cls):
     t = float(t0)
     for i in range(nb):
         bl = rng.choice([500.0, 333.3333333333333, 400.0, 344.82758620689657, 250.0, 1000.0, rng.uniform(100, 2000)])
-        tps.append(f"{fnum(t)},{repr(bl)},{rng.choice([4, 4, 3, 7, 1])},{rng.randrange(4)},{rng.randrange(3)},{rng.choice([5, 50, 100])},1,{rng.choice([0, 1])}")
+        tps.append(f"{fnum(t)},{repr(bl)},{rng.choice([4, 4, 3, 7, 1])},{rng.randrange(4)},{rng.choice([0, 1, 2, 2, 256, 1000])},{rng.choice([5, 50, 100])},1,{rng.choice([0, 1])}")
         t += rng.choice([span / 4, 1234.5, 4000.0, rng.uniform(1, span / 2)])
     nsv = rng.choice([0, 0, 2, 5]) if cls != "many_sv" else 25
     for i in range(nsv):
         ts = rng.choice([float(t0), float(t0) + rng.uniform(0, span)]) if rng.random() < 0.8 else float(tps[0].split(",")[0])
+        if rng.random() < 0.1:
+            ts = float(t0) - rng.choice([0.5, 250.0, 3000.0])  # an SV ahead of the first timing point is an SV all the same
         code = rng.choice([-100.0, -50.0, -200.0, -133.33333333333334, -10.0, -1000.0, -rng.uniform(10, 1000)])
-        tps.append(f"{fnum(ts)},{repr(code)},4,{rng.randrange(4)},{rng.randrange(3)},{rng.choice([5, 50, 100])},0,{rng.choice([0, 1])}")
+        tps.append(f"{fnum(ts)},{repr(code)},4,{rng.randrange(4)},{rng.choice([0, 1, 2, 2, 256, 1000])},{rng.choice([5, 50, 100])},0,{rng.choice([0, 1])}")
     if rng.random() < 0.5:
         rng.shuffle(tps)
     L += tps
@@ -76,7 +78,8 @@ def gen_text(rng, cls):
         x = {"centre": int((512 * c + 256) // keys), "left": lo, "right": hi, "rand": rng.randint(lo, hi)}[mode]
         tt = t0 + rng.randint(0, span)
         hs = rng.randrange(16)
-        samp = f"{rng.randrange(4)}:{rng.randrange(4)}:{rng.randrange(3)}:{rng.choice([0, 30, 70, 100])}:{rng.choice(['', '', '', rng.choice(FILES)])}"
+        # the custom sample index is an unbounded integer (sample banks beyond 255 exist)
+        samp = f"{rng.randrange(4)}:{rng.randrange(4)}:{rng.choice([0, 1, 2, 0, 1, 2, 99, 255, 256, 300, 70000])}:{rng.choice([0, 30, 70, 100])}:{rng.choice(['', '', '', rng.choice(FILES)])}"
         if rng.random() < 0.3:
             end = tt + rng.choice([0, 1, 50, 500, 12345])
             objs.append(f"{x},192,{tt},128,{hs},{end}:{samp}")
